@@ -24,7 +24,7 @@ ASSUMPTIONS = ['O(n^2) tau-b for the maximum-spanning-tree weight (weights, not 
 def cases(seed, tier):
     rng = rng_for(seed, 'C16')
     out = []
-    tables = 48 if tier == 'quick' else 400
+    tables = 48 if tier == 'quick' else 1200
     per = 12 if tier == 'quick' else 36
     for ti in range(tables):
         d = int(rng.choice([2, 3, 4, 5, 6, 7], p=[.1, .2, .25, .2, .15, .1]))
